@@ -112,6 +112,8 @@ pub fn full_derives(d: &Decl) -> Vec<Tr> {
         Inner::Str => t.extend([Tr::Eq, Tr::Ord, Tr::Hash, Tr::Display, Tr::FromStr]),
         Inner::VecI32 => t.extend([Tr::Eq, Tr::Ord, Tr::Hash, Tr::IntoIterator]),
         Inner::Point => t.extend([Tr::Copy, Tr::Eq, Tr::Ord, Tr::Hash, Tr::Display, Tr::FromStr]),
+        // no Eq / Ord / Hash / Display / FromStr on the inner type
+        Inner::CowF32 => {}
     }
     if d.generic != Generic::None {
         // Copy needs T: Copy which the declaration does not state
@@ -127,7 +129,9 @@ pub fn full_derives(d: &Decl) -> Vec<Tr> {
         t.push(Tr::Default);
     }
     t.extend([Tr::Serialize, Tr::Deserialize]);
-    if arbitrary_admissible(d) && d.generic == Generic::None {
+    // (Arbitrary on a lifetime-parameterised declaration does not compile: the impl ties the lifetime of the
+    // inner `Cow<'a, _>` to the lifetime of the byte source; not part of the documented grammar, not claimed)
+    if arbitrary_admissible(d) && d.generic == Generic::None && d.inner != Inner::CowF32 {
         t.push(Tr::Arbitrary);
     }
     t.sort();
@@ -198,6 +202,7 @@ pub fn catalogue() -> Vec<Decl> {
     strings(&mut out);
     others(&mut out);
     infallible_try_from(&mut out);
+    cows(&mut out);
     out
 }
 
@@ -1122,6 +1127,61 @@ fn others(out: &mut Vec<Decl>) {
         out.push(base);
         out.push(tw);
     }
+}
+
+/// lifetime-parameterised declarations `W<'a>(Cow<'a, [f32]>)`
+fn cows(out: &mut Vec<Decl>) {
+    let inner = Inner::CowF32;
+    let mut k = 0;
+    for sl in [vec![], vec!["s_abs_all"], vec!["s_take3"], vec!["s_push0"]] {
+        for vi in 0..5 {
+            let mut d = Decl::new(inner).tag("cow-sanitize");
+            d.sans = sl.iter().map(|n| { k += 1; SanSpec::With(f(n, FN_FORMS[k % FN_FORMS.len()])) }).collect();
+            k += 1;
+            let form = FN_FORMS[k % FN_FORMS.len()];
+            d.vals = match vi {
+                0 => Vals::None,
+                1 => Vals::Std(vec![ValSpec::Predicate(f("p_nonempty", form))]),
+                2 => Vals::Std(vec![ValSpec::Predicate(f("p_short", form))]),
+                3 => Vals::Std(vec![ValSpec::Predicate(f("p_no_nan", form))]),
+                _ => Vals::Custom(f("v_sum", FnForm::Path)),
+            };
+            if vi == 1 {
+                d.default = Some(DefaultSpec { macro_text: "Cow::Borrowed(&[3.0, -1.0, 2.0])".into(), neutral_text: "Cow::Borrowed(&[3.0, -1.0, 2.0])".into(), class: "valid".into() });
+            }
+            if vi == 2 {
+                d.default = Some(DefaultSpec { macro_text: "Cow::Owned(vec![1.0; 5])".into(), neutral_text: "Cow::Owned(vec![1.0; 5])".into(), class: "maybe-invalid".into() });
+            }
+            out.push(with_full(d.clone()));
+            if vi == 0 {
+                out.push(with_full_tryfrom(d));
+            }
+        }
+    }
+    let singles: Vec<Vec<Tr>> = vec![
+        vec![Tr::Debug],
+        vec![Tr::Clone],
+        vec![Tr::PartialEq],
+        vec![Tr::PartialEq, Tr::PartialOrd],
+        vec![Tr::AsRef],
+        vec![Tr::Deref],
+        vec![Tr::TryFrom],
+        vec![Tr::Into],
+        vec![Tr::Borrow],
+        vec![Tr::Default],
+        vec![Tr::Serialize],
+        vec![Tr::Deserialize],
+    ];
+    for s in &singles {
+        let mut d = std(Decl::new(inner), vec![ValSpec::Predicate(f("p_nonempty", FnForm::Closure))]).tag("cow-single-trait");
+        d.sans = vec![SanSpec::With(f("s_abs_all", FnForm::Path))];
+        if s.contains(&Tr::Default) {
+            d.default = Some(DefaultSpec { macro_text: "Cow::Borrowed(&[-2.0, 1.0])".into(), neutral_text: "Cow::Borrowed(&[-2.0, 1.0])".into(), class: "needs-sanitising".into() });
+        }
+        out.push(with_derives(d, s));
+    }
+    // no validation, no sanitizers: From
+    out.push(with_full(Decl::new(inner).tag("cow-bare")));
 }
 
 /// declarations without validation deriving `TryFrom` (infallible): bare and sanitize-only, every family
